@@ -303,6 +303,22 @@ def roundNE (p : Nat) (emin : Int) (x : Rat) : Rat :=
 /-- float32 rounding of an exact value (the `fl` the driver runs `quantizeFl` with) -/
 def fl32 (x : Rat) : Rat := roundNE 24 (-126) x
 
+/-- executable form of the guard `NormalCol lo N col` of the `…_fl32` theorems (`Lemmas/QuantFl32.lean`,
+`normalColB_iff`): the column is zero, or `2·lo ≤ b`, `2·b·lo ≤ 1`, `N·lo ≤ 1` and every non-zero entry is
+`≥ 4·lo·b`, with `b = max|col| / N` -/
+def normalColB (lo : Rat) (N : Nat) (col : List Rat) : Bool :=
+  let b := bucketSize N col
+  decide (maxAbs col = 0) ||
+    (decide (2 * lo ≤ b) && decide (2 * b * lo ≤ 1) && decide ((N : Rat) * lo ≤ 1) &&
+      col.all fun x => decide (x = 0) || decide (4 * lo * b ≤ absG x))
+
+/-- the guard of every column of a tensor, float32 (`lo = 2⁻¹²⁶`) -/
+def normalColsFlat (N : Nat) (shape : List Nat) (ed : Bool) (data : Array Rat) : List Bool :=
+  let rows := rowsOf shape
+  let cols := colsOf shape
+  let y := pre ed (fromFlat cols data)
+  (List.range cols).map fun c => normalColB (1 / 2 ^ 126) N (column rows y c)
+
 /-- `|x|` is at least `2^128`: a float32 result would have overflowed -/
 def f32Overflows (x : Rat) : Bool := decide ((2 : Rat) ^ (128 : Int) ≤ (if x < 0 then -x else x))
 
